@@ -4,7 +4,7 @@ def showWP (w : WP) : String :=
   | .inferral => s!"{w.label}:inf"
   | .initial i => s!"{w.label}:init:{i}"
   | .expansion j i => s!"{w.label}:exp:{j}:{i}"
-def fuelOf (q : Q) : Nat := 10000
+def fuelOf (_q : Q) : Nat := 100000
 partial def doLevel (p : Pack) (start : Nat) (q : Q) (acc : List String) : Q × List String :=
   if q.sizes.length != start then (q, acc) else
   match Q.next p (fuelOf q) q with
@@ -12,7 +12,7 @@ partial def doLevel (p : Pack) (start : Nat) (q : Q) (acc : List String) : Q × 
   | (q', .stop) => if q'.sizes.length == start then (q', acc ++ ["nomore"]) else (q', acc)
   | (q', .fuel) => (q', acc ++ ["FUEL"])
 def showQ (q : Q) : String :=
-  s!"W{q.working} N{q.nextLevel} C{q.curr} I{q.ignore.mergeSort} S{q.sizes}"
+  s!"W{q.working} N{q.nextLevel} C{q.curr} I{q.ignore.mergeSort} S{q.sizes} X{q.infExp.mergeSort} Y{q.initExp.mergeSort} G{q.staging.map showWP}"
 partial def loop (h : IO.FS.Stream) (p : Pack) (q : Q) : IO Unit := do
   let line ← h.getLine
   if line.isEmpty then pure () else
@@ -20,16 +20,16 @@ partial def loop (h : IO.FS.Stream) (p : Pack) (q : Q) : IO Unit := do
     | ["pack", a, b, c] =>
       let p : Pack := ⟨a.toNat!, b.toNat!, if c = "-" then [] else (c.splitOn ",").map String.toNat!⟩
       IO.println "ok"; loop h p (Q.init p)
-    | ["add", l] => let q := q.add p l.toNat!; IO.println (showQ q); loop h p q
-    | ["stop", l] => let q := q.setStop l.toNat!; IO.println (showQ q); loop h p q
-    | ["ninf", l] => let q := q.setNotInferrable l.toNat!; IO.println (showQ q); loop h p q
+    | ["add", l] => let q := q.add p l.toNat!; IO.println ("- || " ++ showQ q); loop h p q
+    | ["stop", l] => let q := q.setStop l.toNat!; IO.println ("- || " ++ showQ q); loop h p q
+    | ["ninf", l] => let q := q.setNotInferrable l.toNat!; IO.println ("- || " ++ showQ q); loop h p q
     | ["next"] =>
       match Q.next p (fuelOf q) q with
-      | (q', .yield w) => IO.println (showWP w ++ " " ++ showQ q'); loop h p q'
-      | (q', .stop) => IO.println ("stop " ++ showQ q'); loop h p q'
+      | (q', .yield w) => IO.println (showWP w ++ s!" L{q'.sizes.length} || " ++ showQ q'); loop h p q'
+      | (q', .stop) => IO.println (s!"stop L{q'.sizes.length} || " ++ showQ q'); loop h p q'
       | (q', .fuel) => IO.println "FUEL"; loop h p q'
     | ["level"] =>
       let (q', out) := doLevel p q.sizes.length q []
-      IO.println (" ".intercalate out ++ " | " ++ showQ q'); loop h p q'
-    | _ => IO.println "bad"; loop h p q
+      IO.println (" ".intercalate out ++ s!" L{q'.sizes.length} || " ++ showQ q'); loop h p q'
+    | _ => IO.println "bad-op"; loop h p q
 def main : IO Unit := do loop (← IO.getStdin) ⟨0,0,[]⟩ (Q.init ⟨0,0,[]⟩)
